@@ -344,6 +344,27 @@ pub fn run(ctx: &Ctx, rep: &mut Report) {
         let c = Case { payload: &payload, fill: 0, cuts: split_points(&mut r, total, parts), id, idtext: idtext.into(), decode: false, interleave: r.bool(), kind: "long", vary_decode: false, dress: r.bool() };
         run_case(rep, &mut r, &c);
     }
+    // (5) std / alloc: groups whose total passes 2^16, 255 x 384, 2^17 and 2^18 bytes
+    if !mon::is_noalloc() {
+        let mut item = 0u64;
+        for total in [65_535usize, 65_536, 65_537, 97_919, 97_920, 97_921, 98_305, 131_071, 131_072, 131_073, 262_145] {
+            for parts in [2usize, 3, 5, 9] {
+                if !ctx.mine(item) {
+                    item += 1;
+                    continue;
+                }
+                item += 1;
+                for rep_i in 0..if ctx.thorough() { 8 } else { 2 } {
+                    let payload = armor_chars(&mut r, total);
+                    let (id, idtext) = *r.pick(&ids);
+                    // random cuts, and (second repetition) one huge first fragment followed by small ones
+                    let cuts = if rep_i % 2 == 0 { split_points(&mut r, total, parts) } else { (0..parts - 1).map(|j| total - (parts - 1 - j) * 7).collect() };
+                    let c = Case { payload: &payload, fill: 0, cuts, id, idtext: idtext.into(), decode: false, interleave: r.bool(), kind: "jumbo", vary_decode: false, dress: r.bool() };
+                    run_case(rep, &mut r, &c);
+                }
+            }
+        }
+    }
     for _ in 0..ctx.budget(300, 20_000) {
         conversions(rep, &mut r);
     }
